@@ -245,6 +245,72 @@ def jobs(tier):
     return J
 
 
+def corpus_instances():
+    """Instances named by the corpus files (finding witnesses and minimised past disagreements)."""
+    return {
+        "corpus: Cache 16 words 32->32 / SRAM d64 init 0x100+a":
+            lambda: cache_inst("corpus: Cache 16 words 32->32 / SRAM d64 init 0x100+a", 16, 32, 32, 8, 8, depth=64,
+                               init=[0x100 + a for a in range(64)], mode="B"),
+        "corpus: Cache 16 words 64->32 / SRAM d128 init 0x100+a":
+            lambda: cache_inst("corpus: Cache 16 words 64->32 / SRAM d128 init 0x100+a", 16, 64, 32, 8, 9, depth=128,
+                               init=[0x100 + a for a in range(128)], mode="B"),
+        "corpus: SRAM d64 dw32 burst init 0x100+a":
+            lambda: sram_inst("corpus: SRAM d64 dw32 burst init 0x100+a", 32, 64, 30, burst=True, mode="B",
+                              init=[0x100 + a for a in range(64)]),
+        "corpus: Up 32->128 / SRAM d64":
+            lambda: conv_sram_inst("corpus: Up 32->128 / SRAM d64", 32, 128, 10, 64, mode="B",
+                                   init=words_init(64, 16, lambda i: (i + 1) * 0x0F1E2D3C4B5A69788796A5B4C3D2E1F0 + i)),
+        "corpus: Down 64->32 / SRAM d64":
+            lambda: conv_sram_inst("corpus: Down 64->32 / SRAM d64", 64, 32, 8, 64, mode="B",
+                                   init=[0x80000000 + a * 0x10203 for a in range(64)]),
+        "corpus: SRAM d64 dw32 init 0x100+a":
+            lambda: sram_inst("corpus: SRAM d64 dw32 init 0x100+a", 32, 64, 30, mode="B", init=[0x100 + a for a in range(64)]),
+        "corpus: Cache 4 words 32->16 / SRAM d32 zero init":
+            lambda: cache_inst("corpus: Cache 4 words 32->16 / SRAM d32 zero init", 4, 32, 16, 4, 5, depth=32, mode="B"),
+    }
+
+
+def run_corpus(ctx):
+    """Replay every corpus trace on the real code and on the model (lock-step); entries with
+    `expect_monitor: true` are finding witnesses on which the property monitor must fire (the model agrees with
+    the code on them: it models the defect), all others must pass the monitor too."""
+    import os, json, glob
+    import explore
+    from explore import Disagreement
+    out = []
+    reg = corpus_instances()
+    files = sorted(glob.glob(os.path.join(os.path.dirname(os.path.dirname(os.path.dirname(os.path.abspath(__file__)))),
+                                          "corpus", "C07", "*.json")))
+    for f in files:
+        e = json.load(open(f))
+        inst = reg[e["instance"]]()
+        trace = [tuple(l) for l in e["trace"]]
+        n = inst.netlist
+        root = n.snapshot()
+        mon = inst.monitor()
+        impl, fired = [], None
+        for t, letter in enumerate(trace):
+            outs = explore.impl_step(inst, letter)
+            impl.append(outs)
+            m = mon.observe(letter, outs)
+            if m and fired is None:
+                fired = (t, m)
+        n.restore(root)
+        ctx.lean.open(inst.lean_open)
+        model = ctx.lean.run(trace)
+        ctx.lean.close_session()
+        bad = next((t for t in range(len(trace)) if not explore._masked_equal(inst, impl[t], model[t])), None)
+        ctx.cov.add_instance("corpus/" + os.path.basename(f), states=0, transitions=len(trace),
+                             nontrivial=sum(1 for l in trace if l[0] and l[1]), exhaustive=False, mode="corpus")
+        if bad is not None:
+            out.append(Disagreement(inst, trace[:bad + 1], bad, impl[bad], model[bad]))
+        if fired and not e.get("expect_monitor"):
+            out.append(Disagreement(inst, trace[:fired[0] + 1], fired[0], impl[fired[0]], None, kind="monitor:" + fired[1]))
+        if e.get("expect_monitor") and not fired:
+            ctx.cov.notes.append("corpus witness %s no longer violates the property" % os.path.basename(f))
+    return out
+
+
 def correspond(ctx):
     ctx.jobs = jobs(ctx.tier)
     ctx.rule = ("model/implementation correspondence cycles; non-trivial = the master presents a strobe (cyc & stb) "
@@ -254,8 +320,9 @@ def correspond(ctx):
         "cache_refines_mem is not proved (stated as cache_refines_mem_partial_open in LitexProps/C07.lean): "
         "wishbone.Cache is covered by the model/implementation tie and the reference-memory monitor only",
     ]
+    cdis = run_corpus(ctx)
     dis, bad = run_jobs(ctx, ctx.jobs)
-    return dis
+    return cdis + dis
 
 
 # ---------------------------------------------------------------------------------------------------------
